@@ -80,6 +80,19 @@ def hand_cases():
                     "    map call INNER(\n        x = split GEN.xs,\n    )\n\n    map call INNER as INNER2(\n        x = split GEN.m,\n    )\n\n"
                     "    call USE(\n        rs = INNER,\n        ms = INNER2,\n    )\n\n"
                     "    return (\n        r = INNER,\n        m = INNER2,\n        n = USE.n,\n    )\n}\n\ncall OUTER(\n)\n"))
+    # several split arguments bound to different upstream arrays of unknown length (valid),
+    # and to literals of different lengths (three errors)
+    gens = "".join("stage GEN%d(\n    out int[] xs,\n    src py \"g%d\",\n)\n\n" % (i, i) for i in range(1, 5))
+    a4 = "stage A4(\n    in  int a,\n    in  int b,\n    in  int c,\n    in  int d,\n    out int y,\n    src py \"a\",\n)\n\n"
+    out.append(prog("zipsplit",
+                    gens + a4 + "pipeline TOP(\n    out int[] ys,\n)\n{\n" +
+                    "".join("    call GEN%d(\n    )\n\n" % i for i in range(1, 5)) +
+                    "    map call A4(\n        a = split GEN3.xs,\n        b = split GEN1.xs,\n        c = split GEN4.xs,\n        d = split GEN2.xs,\n    )\n\n"
+                    "    return (\n        ys = A4.y,\n    )\n}\n\ncall TOP(\n)\n"))
+    out.append(prog("zipsplit_err",
+                    a4 + "pipeline TOP(\n    out int[] ys,\n)\n{\n"
+                    "    map call A4(\n        a = split [1, 2],\n        b = split [1, 2, 3],\n        c = split [1, 2, 3, 4],\n        d = split [1],\n    )\n\n"
+                    "    return (\n        ys = A4.y,\n    )\n}\n\ncall TOP(\n)\n"))
     # duplicate retain entries
     out.append(prog("dupretain",
                     "stage S(\n    in  int x,\n" + "".join("    out file f%d,\n" % i for i in range(6)) + "    src py \"s\",\n) retain (\n"
